@@ -109,6 +109,7 @@ type GenesisConfig struct {
 	PoolCreationFee   int64
 	EdenRewards       bool // tokenomics time-based inflation present
 	MinGasPrice       bool
+	Airdrops          bool `json:"airdrops,omitempty"` // tokenomics airdrop records in genesis: governance-owned (as in config.yml) and beneficiary-owned (the only kind MsgClaimAirdrop can pay)
 }
 
 func DefaultGenesisConfig() GenesisConfig {
@@ -377,6 +378,13 @@ func BuildGenesis(app *elysapp.ElysApp, w *World) (elysapp.GenesisState, error) 
 		infl := &tokenomicstypes.InflationEntry{LmRewards: 9_999_999_000_000, IcsStakingRewards: 9_999_999_000_000, CommunityFund: 9_999_999_000_000, StrategicReserve: 9_999_999_000_000, TeamTokensVested: 9_999_999_000_000}
 		tg.GenesisInflation = &tokenomicstypes.GenesisInflation{Inflation: infl, SeedVesting: 9_999_999_000_000, StrategicSalesVesting: 9_999_999_000_000, Authority: gov}
 		tg.TimeBasedInflationList = []tokenomicstypes.TimeBasedInflation{{StartBlockHeight: 1, EndBlockHeight: 6_307_200, Description: "year 1", Inflation: infl, Authority: gov}}
+	}
+	if cfg.Airdrops {
+		far := uint64(cfg.GenesisTime.Unix()) + 10*365*86400
+		tg.AirdropList = append(tg.AirdropList, tokenomicstypes.Airdrop{Intent: "AtomStakers", Amount: 9_999_999_000_000, Authority: gov, Expiry: far})
+		for _, u := range w.Users[:min(3, len(w.Users))] {
+			tg.AirdropList = append(tg.AirdropList, tokenomicstypes.Airdrop{Intent: u.Addr.String(), Amount: 1_000_000, Authority: u.Addr.String(), Expiry: far})
+		}
 	}
 	gs[tokenomicstypes.ModuleName] = cdc.MustMarshalJSON(tg)
 
